@@ -27,7 +27,7 @@ def is_scalar(cp):
 
 class C10(Property):
     id = "C10"
-    lean_module = "RosuModel.Props.C10"
+    lean_module = "RosuModel.Props.C10Lossy"   # imports Props/C10.lean; both files are in namespace Rosu.C10
     namespace = "Rosu.C10"
     design_ref = "5.10"
     level_text = (
@@ -41,7 +41,13 @@ class C10(Property):
         "agree; what follows a line feed is read independently of the bytes before it (lossy_line_local, lossy_first_line); valid UTF-8 and "
         "valid UTF-16 decode to themselves for every Unicode scalar value (utf8_valid_roundtrip, utf16_valid_roundtrip), invalid lead bytes "
         "and unpaired surrogates become exactly one U+FFFD (invalid_lead_replaced, surrogate_replaced), the odd tail byte is dropped "
-        "(odd_tail_dropped). Model tied to the code on every run by decoding the same text in four encodings with a recording DecodeBeatmap "
+        "(odd_tail_dropped). The lossy UTF-8 decoder is proved equal, for every byte string, to a separately stated specification "
+        "(Props/C10Lossy.lean, Lemmas/LossySpec.lean, Lemmas/LossyRel.lean): utf8Lossy_eq_spec against a table-driven function (match the input against "
+        "the nine rows of Unicode Table 3-7; a completely matched row yields its scalar value, otherwise the longest prefix fitting some row — at least "
+        "one byte — yields one U+FFFD), and utf8Lossy_iff_decodes against an inductive relation worded after the standard's 'U+FFFD substitution of "
+        "maximal subparts' (the relation is functional and the decoder computes it); Table 3-7 only admits scalar values (wellFormed_scalar_valid); "
+        "decoding is compositional at every ASCII byte, in particular at line feeds (utf8Lossy_append_ascii, utf8Lossy_append_lf, utf8Lossy_unlines). "
+        "That std's String::from_utf8_lossy implements this policy is its documented behaviour and is exercised by the correspondence, not proved. Model tied to the code on every run by decoding the same text in four encodings with a recording DecodeBeatmap "
         "type, invalid-UTF-8 and surrogate injections, odd tails; the property itself is evaluated on the implementation against "
         "String::from_utf8_lossy / char::decode_utf16 applied per line and an independent framing transcription.")
     technique = "Lean 4 proof (encoders vs decoders, structural line splitting) + differential correspondence over encodings and injections"
@@ -50,12 +56,12 @@ class C10(Property):
         "fromBom_utf8Encode", "lossy_line_local", "lossy_first_line",
         "utf8_valid_roundtrip", "utf16_valid_roundtrip", "ascii_passthrough", "invalid_lead_replaced", "lossy_examples",
         "surrogate_replaced", "surrogate_replaced_low", "surrogate_replaced_high", "surrogate_pair_decoded", "odd_tail_dropped",
+        # Props/C10Lossy.lean: the lossy UTF-8 decoder against a separately stated specification
+        "utf8Lossy_eq_spec", "utf8Lossy_iff_decodes", "lossySpec_step", "wellFormed_iff_row", "maximal_subpart_spec",
+        "wellFormed_scalar_valid", "utf8Lossy_valid", "lossySpec_valid", "utf8Lossy_append_ascii", "utf8Lossy_append_lf",
+        "utf8Lossy_unlines", "lossy_examples_spec",
     ]
-    partial_theorems = {
-        "lossy_examples": "the maximal-subpart rule is proved on the documented cases and for single invalid lead bytes "
-                          "(invalid_lead_replaced), not as equality with a separately stated general specification; the general equality with "
-                          "String::from_utf8_lossy is checked differentially",
-    }
+    partial_theorems = {}
     trusted_base = [
         "Lean 4.33.0 kernel",
         "axioms: at most propext, Classical.choice, Quot.sound (audited per theorem with #print axioms)",
